@@ -131,7 +131,7 @@ class Gen(object):
         ch = ["arith", "arith", "logic", "logic", "shift", "shift", "unary", "slice", "slice", "compose", "compose", "tst", "ext", "dup", "reassoc",
               "simp", "div"]
         if w == 1:
-            ch += ["cmp"] * 8 + ["bit", "eqbit", "eqbit"]
+            ch += ["cmp"] * 8 + ["bit", "eqbit", "eqbit", "notcmp", "notcmp"]
         if w % 2 == 0 and w // 2 >= 1:
             ch += ["pow"]
         c = r.choice(ch)
@@ -177,6 +177,11 @@ class Gen(object):
             w2 = r.choice(WIDTHS)
             gg = lambda: self.gen(w2, d - 1)
             return gg() + gg() + [[r.choice(["eq", "ne", "lt", "le", "gt", "ge", "lt", "ge", "ltu", "geu", "ltuh", "geuh"])]]
+        if c == "notcmp":
+            # ~(a o b): the not_cond rule; leaves are often plain registers so that boundary valuations make a == b
+            w2 = r.choice(WIDTHS)
+            dd = 0 if r.random() < 0.5 else d - 1
+            return self.gen(w2, dd) + self.gen(w2, dd) + [[r.choice(["le", "ge", "lt", "gt", "eq", "ne", "ltu", "geu", "le", "ge"])], ["not"]]
         if c == "eqbit":
             # (cond ==/!= bit)  — the eq_bit rule
             return g(1) + [["cst", r.choice([0, 1]), 1]] + [[r.choice(["eq", "ne"])]]
